@@ -531,6 +531,39 @@ func init() {
 		return &TupleV{Vs: []Val{app(SString, fn, x.e.reify(st, iv.V, iv.Typ)), &ErrV{IsNil: TTrue}}}
 	})
 	reg("(github.com/tendermint/tendermint/libs/bytes.HexBytes).Bytes", "the bytes themselves", func(x *Exec, st *State, ci *callInfo, a []Val) Val { return a[0] })
+	reg("fmt.Sprintf", "Sprintf(\"%x\", bytes) = hexenc(bytes) (uninterpreted, injective); any other format: an arbitrary string", func(x *Exec, st *State, ci *callInfo, a []Val) Val {
+		if f, ok := a[0].(T); ok && f.S == `"%x"` {
+			if sl, ok := a[1].(*SliceV); ok {
+				if n, lit := isLit(sl.Len); lit && n == 1 {
+					el := x.e.getPath(st, st.Heap[sl.Back], []PathEl{{Field: -1, Idx: &sl.Off}})
+					if iv, ok := el.(*IfaceV); ok && !iv.Sym && iv.Typ != nil {
+						var arg T
+						okArg := false
+						switch v := iv.V.(type) {
+						case T:
+							if v.So == SString {
+								arg, okArg = v, true
+							}
+						case *SliceV:
+							if c := x.coerceBufs(st, []Val{v}); len(c) == 1 {
+								if t, isT := c[0].(T); isT {
+									arg, okArg = t, true
+								}
+							}
+						}
+						if okArg {
+							x.e.declareFun("uf_hexenc", "(String) String")
+							x.e.declareFun("uf_hexdec", "(String) String")
+							x.e.addAxiom("(assert (forall ((s String)) (! (= (uf_hexdec (uf_hexenc s)) s) :pattern ((uf_hexenc s)))))")
+							return app(SString, "uf_hexenc", arg)
+						}
+					}
+				}
+			}
+		}
+		x.unmodelled["fmt.Sprintf"] = true
+		return x.e.fresh("sprintf", SString)
+	})
 	reg("strings.ToLower", "tolower(s) (uninterpreted, length-preserving)", func(x *Exec, st *State, ci *callInfo, a []Val) Val {
 		x.e.declareFun("uf_tolower", "(String) String")
 		r := app(SString, "uf_tolower", tt(a[0]))
